@@ -23,7 +23,11 @@ import (
 //	v1     ValuerEval{bindings at 2, IntegerFloatDivision}.Eval(red)
 //
 // and red / v1 for every alt tree.  In the time family the valuer also is a NowValuer and only
-// the folded node is recorded.  Nothing is compared here.
+// the folded node is recorded.  A case of the zone slice carries a valuer composition tree "vt"
+// ({k: map} | {k: now, now: bool [, off: minutes east]} | {k: multi, ms: [...]}): the valuer given
+// to Reduce is built from it with the real MapValuer / NowValuer / MultiValuer (time.FixedZone
+// locations, no tzdata); with "plain" (= / != between two strings) the two evaluations are
+// recorded as well.  Nothing is compared here.
 func init() {
 	register("c09", &Suite{Run: c09run})
 }
@@ -291,6 +295,47 @@ func c09text(n M, sp string) string {
 	return "?" + str(n["k"])
 }
 
+// c09valuer builds the valuer composition a tree record describes.
+func c09valuer(vt M, s1 map[string]interface{}, now time.Time) (influxql.Valuer, error) {
+	switch k := str(vt["k"]); k {
+	case "map":
+		return influxql.MapValuer(s1), nil
+	case "now":
+		nv := &influxql.NowValuer{}
+		if b, _ := vt["now"].(bool); b {
+			nv.Now = now
+		}
+		if off, ok := vt["off"]; ok {
+			m := num(off)
+			if m == 0 {
+				nv.Location = time.UTC
+			} else {
+				nv.Location = time.FixedZone(fmt.Sprintf("UTC%+03d:%02d", m/60, c09abs(m)%60), m*60)
+			}
+		}
+		return nv, nil
+	case "multi":
+		var ms []influxql.Valuer
+		for _, x := range list(vt["ms"]) {
+			v, err := c09valuer(obj(x), s1, now)
+			if err != nil {
+				return nil, err
+			}
+			ms = append(ms, v)
+		}
+		return influxql.MultiValuer(ms...), nil
+	default:
+		return nil, fmt.Errorf("unknown valuer kind %q", k)
+	}
+}
+
+func c09abs(n int) int {
+	if n < 0 {
+		return -n
+	}
+	return n
+}
+
 type c09env struct {
 	s1, s2, all map[string]interface{}
 }
@@ -343,9 +388,16 @@ func c09run(c M) M {
 			return o
 		}
 		valuer = influxql.MultiValuer(influxql.MapValuer(env.s1), &influxql.NowValuer{Now: nv.(time.Time)})
+		if vt := obj(c["vt"]); vt != nil {
+			if valuer, err = c09valuer(vt, env.s1, nv.(time.Time)); err != nil {
+				o["build_err"] = errStr(err)
+				return o
+			}
+		}
 	}
+	_, streq := c["plain"]
 	mk, _ := c09make(c, tree, o)
-	c09observe(o, mk, valuer, env, !timeFam, true)
+	c09observe(o, mk, valuer, env, !timeFam || streq, true)
 	if alts := list(c["alts"]); len(alts) > 0 {
 		ao := M{}
 		for _, a := range alts {
